@@ -36,6 +36,7 @@ type GroupCfg struct {
 	MaxSteps int64   `json:"max_steps"`
 	ZeroStubs  []string `json:"zero_stubs"`
 	SkipInit   bool     `json:"skip_init"` // do not run the package's own init; the harness sets the globals it needs
+	Selfcheck  bool     `json:"selfcheck"` // translation validation: sampled paths are re-run natively and observations compared
 	Strace     bool     `json:"strace"` // native replay under strace: real system-call paths are checked against the sandbox root
 	Instrument []string `json:"instrument"` // repo files (relative) that get Yield points (G2)
 }
@@ -159,6 +160,8 @@ func cmdCheck(args []string) {
 	defer os.RemoveAll(scratch)
 
 	var results []*HarnessResult
+	selfOK, selfBad := 0, 0
+	var selfDetail []string
 	var loadS float64
 	engineErr := ""
 	staticReach := map[string]bool{}
@@ -244,6 +247,12 @@ func cmdCheck(args []string) {
 		if g.MaxSteps > 0 {
 			cfg.MaxSteps = g.MaxSteps
 		}
+		if g.Selfcheck {
+			cfg.SelfSamples = 2 // per worker
+			if *tier == "thorough" {
+				cfg.SelfSamples = 6
+			}
+		}
 		cfg.Disable = map[string]bool{}
 		for _, d := range g.Disable {
 			cfg.Disable[d] = true
@@ -271,6 +280,14 @@ func cmdCheck(args []string) {
 			hr := runHarness(ld, cfg, pkg, fn, *jobs, time.Now().Add(remaining), g.MaxPaths)
 			hr.Group = gi
 			results = append(results, hr)
+			if g.Selfcheck && len(hr.SelfSamples) > 0 && !*noReplay {
+				ok, bad, detail := nativeSelfcheck(*repo, *verif, pdir, g, hr, *tier, scratch)
+				selfOK += ok
+				selfBad += bad
+				if bad > 0 {
+					selfDetail = append(selfDetail, hr.Harness+": "+detail)
+				}
+			}
 			for k, n := range hr.Funcs {
 				funcs[k] += n
 			}
@@ -390,6 +407,12 @@ func cmdCheck(args []string) {
 	for _, s := range inconclusive {
 		lines = append(lines, fmt.Sprintf("INCONCLUSIVE property=%s reason=%s", id, s))
 	}
+	for _, d := range selfDetail {
+		lines = append(lines, fmt.Sprintf("TRANSLATION-MISMATCH property=%s %s", id, d))
+		if engineErr == "" {
+			engineErr = "translation validation failed: " + d
+		}
+	}
 	if engineErr != "" {
 		lines = append(lines, fmt.Sprintf("ENGINE-ERROR property=%s %s", id, engineErr))
 	}
@@ -471,7 +494,8 @@ func cmdCheck(args []string) {
 		"coverage": map[string]interface{}{
 			"states":                        states,
 			"transitions":                   trans,
-			"traces_validated_against_impl": len(replays),
+			"traces_validated_against_impl": len(replays) + selfOK,
+			"translation_validation":        map[string]interface{}{"paths_replayed_natively_with_equal_observations": selfOK, "mismatches": selfBad},
 			"samples":                       samples,
 			"evaluations":                   asserts,
 			"distinct_nontrivial":           nontriv,
@@ -927,4 +951,98 @@ func atomicViolations(stdout, traceFile string) string {
 		}
 	}
 	return ""
+}
+
+// nativeSelfcheck re-runs sampled paths natively and compares observations.
+func nativeSelfcheck(repo, verif, pdir string, g GroupCfg, hr *HarnessResult, tier, scratch string) (int, int, string) {
+	samples := hr.SelfSamples
+	max := 24
+	if tier == "thorough" {
+		max = 96
+	}
+	if len(samples) > max {
+		samples = samples[:max]
+	}
+	type sm struct {
+		Model map[string]uint64 `json:"model"`
+	}
+	var file struct {
+		Harness string `json:"harness"`
+		Tier    string `json:"tier"`
+		Samples []sm   `json:"samples"`
+	}
+	file.Harness, file.Tier = hr.Harness, tier
+	for _, s := range samples {
+		file.Samples = append(file.Samples, sm{s.Model})
+	}
+	fb, _ := json.Marshal(file)
+	fpath := filepath.Join(scratch, "selfcheck_"+sanitize(hr.Harness)+".json")
+	os.WriteFile(fpath, fb, 0o644)
+	replace := map[string]string{}
+	rtFiles, _ := filepath.Glob(filepath.Join(verif, "rt", "*.go"))
+	for _, f := range rtFiles {
+		replace[filepath.Join(repo, "zz_verifrt", filepath.Base(f))] = f
+	}
+	var entries []string
+	pkgName := ""
+	for _, f := range g.Files {
+		src := filepath.Join(pdir, f)
+		replace[filepath.Join(repo, g.Package, "zz_verif_"+filepath.Base(f))] = src
+		sb, _ := os.ReadFile(src)
+		for _, m := range entryRe.FindAllStringSubmatch(string(sb), -1) {
+			entries = append(entries, m[1])
+		}
+		if m := pkgRe.FindStringSubmatch(string(sb)); m != nil {
+			pkgName = m[1]
+		}
+	}
+	var tb strings.Builder
+	fmt.Fprintf(&tb, "package %s\n\nimport (\n\t\"testing\"\n\trt \"github.com/safing/portbase/zz_verifrt\"\n)\n\nfunc TestVerifSelfcheck(t *testing.T) {\n\trt.RunSelfcheck(map[string]func(){\n", pkgName)
+	for _, e := range entries {
+		fmt.Fprintf(&tb, "\t\t%q: %s,\n", e, e)
+	}
+	tb.WriteString("\t})\n}\n")
+	testFile := filepath.Join(scratch, "selfcheck_"+sanitize(g.Package)+"_test.go")
+	os.WriteFile(testFile, []byte(tb.String()), 0o644)
+	replace[filepath.Join(repo, g.Package, "zz_verif_selfcheck_test.go")] = testFile
+	ovb, _ := json.Marshal(map[string]interface{}{"Replace": replace})
+	ovFile := filepath.Join(scratch, "overlay_self_"+sanitize(g.Package)+".json")
+	os.WriteFile(ovFile, ovb, 0o644)
+	cmd := exec.Command("go", "test", "-v", "-vet=off", "-count=1", "-timeout", "120s", "-run", "^TestVerifSelfcheck$", "-overlay", ovFile, "./"+g.Package)
+	cmd.Dir = repo
+	cmd.Env = append(os.Environ(), "GOFLAGS=-mod=mod", "GOPROXY=off", "GOSUMDB=off", "GOTOOLCHAIN=local", "VERIF_SELFCHECK="+fpath)
+	out, _ := cmd.CombinedOutput()
+	got := map[int][]string{}
+	seen := map[int]bool{}
+	for _, l := range strings.Split(string(out), "\n") {
+		f := strings.SplitN(l, " ", 3)
+		if len(f) >= 2 && f[0] == "VERIF-SAMPLE" {
+			i, _ := strconv.Atoi(f[1])
+			seen[i] = true
+		}
+		if len(f) == 3 && f[0] == "VERIF-OBSERVE" {
+			i, _ := strconv.Atoi(f[1])
+			got[i] = append(got[i], f[2])
+		}
+	}
+	ok, bad := 0, 0
+	detail := ""
+	for i, s := range samples {
+		if !seen[i] {
+			bad++
+			if detail == "" {
+				detail = fmt.Sprintf("sample %d did not run natively: %s", i, firstLines(string(out), 4))
+			}
+			continue
+		}
+		if strings.Join(got[i], ";") == strings.Join(s.Observations, ";") {
+			ok++
+		} else {
+			bad++
+			if detail == "" {
+				detail = fmt.Sprintf("sample %d: engine %v native %v model %v", i, s.Observations, got[i], s.Model)
+			}
+		}
+	}
+	return ok, bad, detail
 }
